@@ -25,11 +25,20 @@ Lemma byte_slurp_sim : forall i1 i2, RI i1 i2 ->
   c1 = c2 /\ n1 = n2 /\ RI j1 j2.
 Proof. exact slurp_refines. Qed.
 
+(* level 0: nested loops are not entered on either side *)
+Lemma byte_nest_sim : forall s x1 x2, RX RI x1 x2 ->
+  RX RI (fst (op_nest byte_ops s x1)) (fst (op_nest line_ops s x2)) /\
+  snd (op_nest byte_ops s x1) = snd (op_nest line_ops s x2).
+Proof.
+  intros s x1 x2 H. cbn [op_nest byte_ops line_ops]. unfold nest_stub. cbn [fst snd].
+  split; [now apply RX_with_status | reflexivity].
+Qed.
+
 Lemma model_refines_spec_lemma parser fuel pf src d :
   model_run parser fuel pf src d = spec_run parser fuel pf (abs_src src) (abs_dev d).
 Proof.
   unfold model_run, spec_run.
-  apply (run_sim byte_ops line_ops RI RS parser byte_pull_sim byte_read_sim byte_slurp_sim).
+  apply (run_sim byte_ops line_ops RI RS parser byte_pull_sim byte_read_sim byte_slurp_sim byte_nest_sim).
   - apply RS_abs.
   - reflexivity.
 Qed.
@@ -232,7 +241,7 @@ Proof.
   intros Hrl Hd Hd' HA HB H Hin.
   assert (Hinit : forall e, RM RI RS (init SrcStdin e) (init LShared (abs_dev e))).
   { intros e. apply init_sim; [constructor | reflexivity]. }
-  pose proof (iter_n_sim byte_ops line_ops RI RS parser byte_pull_sim byte_read_sim byte_slurp_sim
+  pose proof (iter_n_sim byte_ops line_ops RI RS parser byte_pull_sim byte_read_sim byte_slurp_sim byte_nest_sim
                 k pf _ _ (Hinit d)) as Hs.
   rewrite H in Hs.
   destruct (iter_n line_ops parser k pf (init LShared (abs_dev d))) as [n|] eqn:En; [|contradiction].
@@ -243,7 +252,7 @@ Proof.
   destruct (prefix_independence_lines parser (split_lines A) (split_lines B) (split_lines B')
               k pf n Hrl HLB En Hri)
     as [n' [En' [Hin' [Hsh' [Hoff' [Hevs' [Heof' [Hsrc' [Hpe' [Hfe' Hhi']]]]]]]]]].
-  pose proof (iter_n_sim byte_ops line_ops RI RS parser byte_pull_sim byte_read_sim byte_slurp_sim
+  pose proof (iter_n_sim byte_ops line_ops RI RS parser byte_pull_sim byte_read_sim byte_slurp_sim byte_nest_sim
                 k pf _ _ (Hinit d')) as Hs'.
   unfold abs_dev in Hs'. rewrite Hd', split_lines_app_nl, En' in Hs' by assumption.
   destruct (iter_n byte_ops parser k pf (init SrcStdin d')) as [m'|]; [|contradiction].
@@ -271,7 +280,7 @@ Proof.
   intros Hs Hs' HB H Hsrc.
   assert (Hinit : forall t, RM RI RS (init t d) (init (abs_src t) (abs_dev d))).
   { intros t. apply init_sim; [apply RS_abs | reflexivity]. }
-  pose proof (iter_n_sim byte_ops line_ops RI RS parser byte_pull_sim byte_read_sim byte_slurp_sim
+  pose proof (iter_n_sim byte_ops line_ops RI RS parser byte_pull_sim byte_read_sim byte_slurp_sim byte_nest_sim
                 k pf _ _ (Hinit s)) as Hsim.
   rewrite H in Hsim.
   destruct (iter_n line_ops parser k pf (init (abs_src s) (abs_dev d))) as [n|] eqn:En; [|contradiction].
@@ -279,7 +288,7 @@ Proof.
   apply RS_inv in Hrs. rewrite Hsrc in Hrs. rewrite Hs in En.
   destruct (prefix_independence_lines_sep parser LA LB LB' (abs_dev d) k pf n HB En Hrs)
     as [n' [En' [Hsrc' [Hx' [Heof' [Hpe' [Hfe' Hhi']]]]]]].
-  pose proof (iter_n_sim byte_ops line_ops RI RS parser byte_pull_sim byte_read_sim byte_slurp_sim
+  pose proof (iter_n_sim byte_ops line_ops RI RS parser byte_pull_sim byte_read_sim byte_slurp_sim byte_nest_sim
                 k pf _ _ (Hinit s')) as Hsim'.
   rewrite Hs', En' in Hsim'.
   destruct (iter_n byte_ops parser k pf (init s' d)) as [m'|]; [|contradiction].
